@@ -9,6 +9,7 @@ import (
 
 	"verif/mc"
 	"verif/vrt"
+	"verif/vrt/vctx"
 	"verif/vrt/vtime"
 )
 
@@ -27,6 +28,8 @@ type waitCase struct {
 	prop     string
 	holders2 bool // both holders complete (limit 2)
 	noTimer  bool // queue kinds: MaxBacklogTimeout < 0, the waiter selects on a nil timer channel
+	eager    bool // timeouts may fire at any point: a waiter gives up while it is being handed the token; the one behind it must be served
+	abandon  bool // waiter 0 is cancelled at 10 ms and leaves (its helper stays parked on the condition); the others must still be woken
 }
 
 // waitState is the ghost state shared by the threads of one execution.
@@ -161,8 +164,8 @@ func waitScenario(cs waitCase) *mc.Scenario {
 	name := fmt.Sprintf("%s/wake/%s", cs.prop, cs.kind)
 	return &mc.Scenario{
 		Name:   name,
-		Params: fmt.Sprintf("limit=%d waiters=%d holder-outcome=%s late=%v both-holders=%v no-backlog-timeout=%v", cs.limit, cs.waiters, outcomeNames[cs.outcome], cs.lateBy, cs.holders2, cs.noTimer),
-		Cfg:    vrt.Config{Events: true, MaxSteps: 4000},
+		Params: fmt.Sprintf("limit=%d waiters=%d holder-outcome=%s late=%v both-holders=%v no-backlog-timeout=%v first-waiter-abandons=%v eager-clock=%v", cs.limit, cs.waiters, outcomeNames[cs.outcome], cs.lateBy, cs.holders2, cs.noTimer, cs.abandon, cs.eager),
+		Cfg:    vrt.Config{Events: true, MaxSteps: 4000, EagerClock: cs.eager, Horizon: int64(10 * time.Second)},
 		Body: func(x *mc.Exec) {
 			so := stackOpts{}
 			if cs.noTimer {
@@ -198,10 +201,19 @@ func waitScenario(cs waitCase) *mc.Scenario {
 			}
 			for i := 0; i < cs.waiters; i++ {
 				i := i
+				wctx := waiterCtx(i)
+				if cs.abandon && i == 0 {
+					c2, cancel := vctx.WithCancel(wctx)
+					wctx = c2
+					ths = append(ths, vrt.GoL("X", func() { vtime.Sleep(10 * time.Millisecond); cancel() }))
+				}
 				t := vrt.GoL(fmt.Sprintf("W%d", i), func() {
+					if cs.abandon && i > 0 {
+						vtime.Sleep(20 * time.Millisecond) // arrives after the first waiter has left
+					}
 					ws.tid[i] = vrt.Self().ID
 					ws.inAcq[i] = true
-					l, ok := st.top.Acquire(waiterCtx(i))
+					l, ok := st.top.Acquire(wctx)
 					ws.inAcq[i] = false
 					ws.returned[i] = true
 					ws.retClock[i] = vrt.Now()
@@ -255,7 +267,7 @@ func waitScenario(cs waitCase) *mc.Scenario {
 			if r.Stuck && !x.Failed() {
 				x.Fail("stuck", "execution deadlocked: %v", r.StuckInfo)
 			}
-			if cs.lateBy == 0 && !x.Failed() {
+			if cs.lateBy == 0 && !x.Failed() && !cs.eager {
 				// first variant: everybody is served without any virtual time elapsing
 				if ws, _ := x.Aux.(*waitState); ws != nil {
 					for i, g := range ws.granted {
@@ -294,6 +306,17 @@ func runC10(c *Ctx) {
 	for _, kind := range []string{"queue-fifo", "queue-lifo-evict"} {
 		c.Explore(waitScenario(waitCase{prop: "C10", kind: kind, limit: 1, waiters: 2, outcome: 1, noTimer: true}), opt)
 		c.Explore(waitScenario(waitCase{prop: "C10", kind: kind, limit: 1, waiters: 1, outcome: 0, noTimer: true, lateBy: 60 * time.Millisecond}), opt)
+	}
+	// a waiter's timeout fires at any point of the hand-off: whoever is behind it must not be stranded
+	for _, kind := range []string{"queue-fifo", "queue-lifo"} {
+		c.Explore(waitScenario(waitCase{prop: "C10", kind: kind, limit: 1, waiters: 2, outcome: 0, eager: true}), mc.Options{PreemptBound: c.Pick(2, 3)})
+	}
+	// an abandoned waiter's helper is still parked on the condition when the release arrives: the
+	// wake-up must reach the live waiter whatever the outcome of the release
+	for _, kind := range []string{"blocking0", "blocking50", "deadline"} {
+		for outcome := 0; outcome < 3; outcome++ {
+			c.Explore(waitScenario(waitCase{prop: "C10", kind: kind, limit: 1, waiters: 2, outcome: outcome, lateBy: 40 * time.Millisecond, abandon: true}), opt)
+		}
 	}
 	// stale helpers: one poll period elapses before the release
 	c.Explore(waitScenario(waitCase{prop: "C10", kind: "blocking50", limit: 1, waiters: 1, outcome: 0, lateBy: 60 * time.Millisecond}), opt)
